@@ -474,6 +474,21 @@ static void monitors(const desc_t *d, const scn_t *s) {
     if (success) K[K_OK]++; else K[K_FAIL]++;
     if (X.viol & V_UNSURE) K[K_UNSURE]++;
 
+    /* ---- readable-guard scenarios: the only question is whether anything is stored behind dest (the zeros behind it make an unterminated
+       dest look terminated one element late, so every other oracle is off) */
+    if (s->rog == 1) {
+        if (g_fence.faulted && g_fence.is_write) {
+            K[K_FAULT_W]++;
+            fault_where(d, s, fw, sizeof fw);
+            snprintf(obs, sizeof obs, "WRITE fault at %s (pc %#lx); dest fills its dmax elements without a terminator and is followed by readable zeros", fw, (unsigned long)g_fence.pc);
+            if (want("C01")) {
+                snprintf(key, sizeof key, "%s|W-fault|%s|%s|%s|zeros-behind-unterminated-dest", d->name, fw, bosname(s->bos), g_cfg);
+                snprintf(what, sizeof what, "%s stores outside the declared destination: %s", d->name, obs);
+                witness(d, s, obs); report("C01", key, what, g_wit);
+            }
+        } else K[K_C01]++;
+        return;
+    }
     /* ---- fence events: C01 (write) / C02 (read); after a size violation with unmapped operands: C05 R6 */
     if (g_fence.faulted) {
         fault_where(d, s, fw, sizeof fw);
@@ -690,9 +705,13 @@ static void run_one(const desc_t *d, scn_t *s) {
     arena_snapshot();
     probes_reset();
     C.ret = -999; C.retp = NULL;
+    if (s->rog == 1) guard_readable(s->order ? 1 : 0, 1);
+    if (s->rog == 2) guard_readable(s->order ? 0 : 1, 1);
     g_shm->in_call = 1; g_cur_fn = d->name;
     FENCED(d->call(&C));
     g_shm->in_call = 0;
+    if (s->rog == 1) guard_readable(s->order ? 1 : 0, 0);
+    if (s->rog == 2) guard_readable(s->order ? 0 : 1, 0);
     memcpy(K_before, K, sizeof K);
     monitors(d, s);
     class_sig(d, s);
@@ -827,6 +846,8 @@ static void gen_main(int fi, visit_fn visit) {
                                     if (d->fam == FAM_SETN || d->fam == FAM_SET) { static const long vv[] = {'x', 0xff, 0x100 + 'y', 0, 0x5a5a5a}; s.val = vv[(a + b + c + dk) % 5]; }
                                     size_src(d, &s);
                                     emit_case(d, &s, visit);
+                                    if (!term && cpy_srcbos && pl == 0 && bos) { s.rog = 2; emit_case(d, &s, visit); s.rog = 0; }   /* unterminated source of known size with a readable NUL right behind it: still to be reported */
+                                    if ((d->fl & F_DESTSTR) && dk == 4 && pl == 0 && bos < 2 && !s.ovl) { s.rog = 1; emit_case(d, &s, visit); s.dkind = 1; s.dlen = dm_el; for (int al = 0; al < 4; al++) { s.alpha = al; emit_case(d, &s, visit); } s.alpha = 0; s.dkind = 0; s.rog = 0; }
                                 }
                             }
                         }
@@ -948,7 +969,7 @@ static void run_overlap_case(const desc_t *d, const ovl_t *o, long idx) {
        filling the rest of the field with nulls is slack treatment, as for the string functions */
     else if (d->fam == FAM_FLD || d->fam == FAM_FLDIN) { fits = o->slen <= dm; wlo = 0; whi = fits ? k : dm; }
     else if (d->fam == FAM_FLDOUT) { if (o->slen == dm) return; /* slen == dmax: truncation vs ESNOSPC is not documented */ fits = o->slen < dm; wlo = 0; whi = fits ? k + 1 : dm; }
-    else if (d->fam == FAM_MEMCCPY) { fits = o->slen <= dm && !(k == o->slen && k == dm && (k == 0 || iS[k - 1] != (uint8_t)stopc)); wlo = 0; whi = k < dm ? k : dm; }
+    else if (d->fam == FAM_MEMCCPY) { fits = o->slen <= dm && !(k == o->slen && k == dm && (k == 0 || iS[k - 1] != (uint8_t)stopc)); wlo = 0; whi = k < dm ? k : dm; if (k == o->slen && k < dm && (k == 0 || iS[k - 1] != (uint8_t)stopc)) whi = k + 1; /* stop character not found: a NUL is stored behind the n bytes */ }
     else { fits = k <= dm; wlo = 0; whi = fits ? k : dm; }
     if (has_slen && o->slen == 0) return;                 /* zero-length requests: no copying, nothing to decide */
     if (dunterm || srcbosviol) return;                     /* other violations dominate: covered by the main mode */
@@ -1006,7 +1027,7 @@ static void run_overlap_case(const desc_t *d, const ovl_t *o, long idx) {
     }
     /* K.3.7.1.1 (memcpy_s) and its sized variants: "copying shall not take place between objects that overlap", the objects being
        dest[0..dmax) and src[0..n): an overlap of the objects alone (zone C) is a violation that has to be reported (C05) */
-    if (d->fam == FAM_MEMCPY && !obj_disjoint && !wr_rd_meet && o->delta != 0 && fits && want("C05")) {
+    if ((d->fam == FAM_MEMCPY || d->fam == FAM_MEMCCPY) && !obj_disjoint && !wr_rd_meet && o->delta != 0 && fits && want("C05")) {   /* memccpy_s documents the same: "ESOVRLP when src memory overlaps dst", regions dest[0..dmax) and src[0..n) */
         if (success || g_h.count != 1) {
             snprintf(key, sizeof key, "%s|ovl|R7-overlap-of-objects-not-reported|%s|%s", d->name, o->delta < 0 ? "src-below" : "src-above", o->bos ? "bos=exact" : "bos=unknown");
             snprintf(obs, sizeof obs, "ret=%s handler calls %d; dest[0..%zu) and src[%ld..%ld) overlap, %zu elements copied", errname(C.ret), g_h.count, dm, r_lo, r_hi, k);
